@@ -85,10 +85,15 @@ structure Variant where
   d8 : Bool     -- fixes/C19-D8.diff: async def, annotated and tuple/list targets are members
   d31 : Bool    -- fixes/C19-D31.diff: the submodule test looks at the imported name, not at the alias
   d53 : Bool    -- commit 499e9c3: `del name` at top level removes the name from the members collected so far
+  cde : Bool    -- fixes/C19-CDE.diff: `del (a, b)` / `del [c]` delete through the tuple / list target
+  cdd : Bool    -- fixes/C19-CDD.diff: an own-package re-export that a later `del` names is dropped
 deriving DecidableEq, Repr
 
-def Variant.current : Variant := ⟨false, false, false⟩
-def Variant.fixed : Variant := ⟨true, true, true⟩
+def Variant.current : Variant := ⟨false, false, false, false, false⟩
+/-- the tree with D8, D31 and D53 repaired (rounds 1–4) -/
+def Variant.fixed : Variant := ⟨true, true, true, false, false⟩
+/-- … and with CD-E and CD-D repaired as well -/
+def Variant.fixed5 : Variant := ⟨true, true, true, true, true⟩
 
 structure Env where
   self : ModName
@@ -123,9 +128,10 @@ def live (f d : Item → List Str) (items : List Item) : List Str :=
   items.foldl (fun acc it => acc.filter (fun n => !(d it).contains n) ++ f it) []
 
 /-- `deleted = set(t.id for t in n.targets if isinstance(t, ast.Name))` of an `ast.Delete`
-    (before commit 499e9c3 `del` statements were ignored). -/
+    (before commit 499e9c3 `del` statements were ignored); with CD-E repaired
+    `set(name for t in n.targets for name in self._target_names(t))`. -/
 def delSeen (v : Variant) : Item → List Str
-  | .del ns _ => if v.d53 then ns else []
+  | .del ns nested => if v.d53 then (if v.cde then ns ++ nested else ns) else []
   | _ => []
 
 /-- The loop `for n in ast_mod: if isinstance(n, ast.Delete): members = [m for m in members if m
@@ -198,6 +204,11 @@ def reexportsOf (v : Variant) (env : Env) : Item → Except Err (List Str)
     | .ok (some fm) => .ok (aliasMembers v env fm aliases)
   | _ => .ok []
 
+/-- `deleted_later` of a `from` statement followed by the statements `rest` (CD-D repaired): the
+    names the later top-level `del` statements remove, as the code sees them. -/
+def delLater (v : Variant) (rest : List Item) : List Str :=
+  if v.cdd then rest.flatMap (delSeen v) else []
+
 def reexports (v : Variant) (env : Env) : List Item → Except Err (List Str)
   | [] => .ok []
   | it :: rest =>
@@ -206,7 +217,7 @@ def reexports (v : Variant) (env : Env) : List Item → Except Err (List Str)
     | .ok xs =>
       match reexports v env rest with
       | .error e => .error e
-      | .ok ys => .ok (xs ++ ys)
+      | .ok ys => .ok (xs.filter (fun n => !(delLater v rest).contains n) ++ ys)
 
 /-! ### filters and `exports` -/
 
